@@ -177,5 +177,5 @@ replay = travcheck.make_replay(plans)
 
 
 def run(ctx: common.Context) -> None:
-    travcheck.run_property(ctx, plans, replay)
+    travcheck.run_property(ctx, plans, replay, quick_s=150)
     ctx.assumptions.append("the tool is entered through the selftests' job seam (intertest_setup.new_job, TestWorker.start, SpawnerDispatcher replaced); TestRunner.run_workers hands the flagged graph to the scheduler")
